@@ -56,6 +56,10 @@ func tokenizeAttr(raw string, q string) (string, bool) {
 
 func c05Exec(op string) string {
 	c, name := newCur(op)
+	if name == "implonly" {
+		c.pos++ // "enc4"
+		return c05encExec(c)
+	}
 	s := c.str()
 	if c.err != nil {
 		return "bad-op " + c.err.Error()
@@ -84,12 +88,35 @@ func c05Exec(op string) string {
 
 func c05Describe(op string) string {
 	c, name := newCur(op)
+	if name == "implonly" {
+		c.pos++
+		mode := c.nat()
+		valid := c.boolean()
+		m := c.mapVal()
+		sm := c.mapVal()
+		return fmt.Sprintf("four encoders, escaping mode=%d (0 off, 1 encoder, 2 decoder) validity check=%v map=%s mapseq=%s", mode, valid, jsonOf(m), jsonOf(sm))
+	}
 	return fmt.Sprintf("%s %q", name, c.str())
 }
 
 func c05Judge(op, impl, model string) Verdict {
 	_, name := newCur(op)
 	v := Verdict{Tags: []string{name}}
+	if name == "implonly" {
+		v.Tags = []string{"enc4"}
+		v.CorrOK, v.Nontrivial = true, true
+		if strings.HasPrefix(impl, "panic") {
+			v.OracleFail = "an encoder panicked: " + impl
+			v.Sig = "enc4:panic"
+			return v
+		}
+		ip := splitModel(impl)
+		if len(ip) > 1 && ip[1] != "" {
+			v.OracleFail = ip[1]
+			v.Sig = "enc4:" + strings.Join(strings.Fields(ip[1])[:3], "-")
+		}
+		return v
+	}
 	if strings.HasPrefix(model, "skip-") {
 		v.Skipped, v.CorrOK = true, true
 		return v
@@ -127,6 +154,9 @@ func c05Gen(r *Rng, n int) []string {
 	for len(ops) < n {
 		s := r.hostile(8)
 		ops = append(ops, "esc "+encStr(s))
+		if r.P(25) {
+			ops = append(ops, c05encGen(r))
+		}
 		// raw strings for the tokenizer model: mostly well-formed references, some broken
 		raw := s
 		if r.P(50) {
